@@ -38,6 +38,10 @@ def run(ctx, rep):
         if "insert#" in o["key"]:
             n += 1
             rep.ob("R5-duplicate-part-refused", o["key"].split(" | ", 2)[2], o["ok"], o["detail"], o["at"])
+        elif "new transfer#" in o["key"]:
+            # parts of a superseded transfer mixed into the new one are accepted as the new tick's snapshot (the crc is a plain
+            # sum and can agree): silent divergence
+            rep.ob("R5b-transfer-restarts-clean", o["key"].split(" | ", 2)[2], o["ok"], o["detail"], o["at"])
     rep.floor("R5-duplicate-part-refused", n, 1, "parts.insert in DeltaReceiver::snap")
 
 
